@@ -63,6 +63,12 @@ def case_strategy(draw, big=False):
                     gen.r6(draw(st.floats(0.01, 1)) * lam), gen.r6(draw(st.floats(0.01, 1)) * lam), gen.r6(draw(st.floats(0.01, 1)) * lam),
                     draw(st.integers(1, 2)), draw(st.integers(1, 2)), 1]
     case['nfpwr'] = gen.r6(draw(gen.logf(1e-6, 1e9))) if draw(st.booleans()) else None
+    # every numeric field at every magnitude: source voltages from 1e-30 to 1e9 V (the solution is linear in them)
+    if draw(st.integers(0, 3)) == 0:
+        sc = 10.0 ** draw(st.integers(-30, 9))
+        for s_ in case['sources']:
+            s_['v'] = [float('%.6g' % (s_['v'][0] * sc)), float('%.6g' % (s_['v'][1] * sc))]
+        case['vscale'] = sc
     return case
 
 
@@ -244,6 +250,10 @@ def check(case):
     for ld in m.loads:
         for p in ld.pulses:
             want_lines.append((p.idx + 1, ld))
+    if case.get('vscale'):
+        labels.append('voltages-scaled')
+        if case['vscale'] <= 1e-12:
+            labels.append('currents-below-1e-14')
     if case['loads']:
         labels.append('loaded')
     if rep['n_loads'] != len(want_lines) or len(rep['loads']) != len(want_lines):
